@@ -5,7 +5,8 @@ through every sequence of <= 2 notifications ending in completion or error; the 
 is set up in a non-preemptible prologue; the downstream observer (and every window
 observer) is a monitor with a scheduling point between enter and exit.  All interleavings up
 to the preemption bound, line-level points in the combinator's file(s) and
-internal/concurrency.py.  Oracle: no two downstream calls overlap; grammar R1.
+internal/concurrency.py.  Oracle: no two downstream calls overlap; grammar R1; for the time/count windows additionally
+no window ends before its timespan elapsed or its count was reached (unless the source ended).
 """
 from __future__ import annotations
 
@@ -66,9 +67,12 @@ class H:
         subs = [Subject() for _ in range(n)]
         st["subs"] = subs
 
+        st["wmeta"] = {}
+
         def monitor(name):
             log = []
             st["logs"][name] = log
+            meta = st["wmeta"][name] = {"open": run.clock, "n": 0, "close": None, "close_idx": None}
 
             class Down:
                 def _c(self_, kind, v):
@@ -77,6 +81,10 @@ class H:
                         st["overlaps"].append((name, kind, me.name))
                     st["inside"] += 1
                     log.append(kind)
+                    if kind == "N":
+                        meta["n"] += 1
+                    elif meta["close"] is None:
+                        meta["close"], meta["close_idx"] = run.clock, len(run.events)
                     run.log("enter", name, kind, me.name)
                     ilv.point("in-downstream", voluntary=True)
                     run.log("exit", name, kind)
@@ -130,11 +138,15 @@ class H:
                     if self.timed and j == 1 and ilv.run().clock < 1.0:
                         # meet the window timer: continue emitting exactly when the first period elapses
                         ilv.run().block(ilv.cur(), lambda: False, 1.0, "sleep")
+                    if self.timed and j > 0:
+                        ilv.point("between-emissions", voluntary=True)  # the source does other work between two notifications
                     if k == "N":
                         s.on_next(i)
                     elif k == "C":
+                        st.setdefault("src_term_idx", len(ilv.run().events))
                         s.on_completed()
                     else:
+                        st.setdefault("src_term_idx", len(ilv.run().events))
                         s.on_error(Boom(i))
 
             return body
@@ -159,6 +171,16 @@ class H:
         P = []
         if st["overlaps"]:
             P.append((f"{self.op}|overlapping-downstream-calls", f"downstream entered concurrently: {st['overlaps'][:3]} logs={ {k: ''.join(v) for k, v in st['logs'].items()} }"))
+        if self.timed:
+            # a window that ended before the source terminated must have lived its timespan (1.0) or, for
+            # time-or-count, be full (count 2): nothing else may close it
+            term = st.get("src_term_idx", 10**9)
+            for name, m in st["wmeta"].items():
+                if name == "out" or m["close"] is None or m["close_idx"] >= term:
+                    continue
+                full = self.op == "window_with_time_or_count" and m["n"] >= 2
+                if not full and m["close"] - m["open"] < 1.0 - 1e-9:
+                    P.append((f"{self.op}|window-closed-early", f"window {name} opened at clock {m['open']} closed at {m['close']} with {m['n']} elements (timespan 1.0" + (", count 2)" if self.op.endswith("count") else ")")))
         for name, log in st["logs"].items():
             s = "".join(log)
             t = [i for i, k in enumerate(s) if k in "EC"]
@@ -183,7 +205,11 @@ def harnesses(tier):
             for tr in itertools.combinations_with_replacement(SEQ_Q, 3):
                 hs.append(H(op, tr))
     for op in ("window_with_time", "window_with_time_or_count"):
-        for s in ([("N", "C"), ("N", "N", "C"), ("N", "E")] if tier == "quick" else [("N", "C"), ("N", "N", "C"), ("N", "N", "N", "C"), ("N", "E"), ("N", "N", "E")]):
+        if tier == "quick":
+            seqs_w = [("N", "N", "C")] if op == "window_with_time" else [("N", "C"), ("N", "N", "C")]
+        else:
+            seqs_w = [("N", "C"), ("N", "N", "C"), ("N", "N", "N", "C"), ("N", "E"), ("N", "N", "E")]
+        for s in seqs_w:
             hs.append(H(op, (s,)))
     return hs
 
